@@ -1,8 +1,8 @@
 SPECIFICATION Spec
 CONSTANTS Versions = {1, 2}
-  MaxSteps = 3
+  MaxSteps = 6
   ReAddOnRemove = TRUE
-  OnlyRotations = FALSE
+  OnlyRotations = TRUE
   Serialized = TRUE
 INVARIANTS Converges ServedIsValidVersion
 CHECK_DEADLOCK FALSE
